@@ -33,7 +33,7 @@ PROPS = {
             "level": "proof"},
     "C11": {"targets": [CMD + "StateResponse._parse_temperature", CMD + "StateResponse._parse", CMD + "StateResponse.__init__",
                         (CMD + "Response.construct", r"dispatch|payload|long_enough|noraise|call\."),
-                        (AC + "._update_state", r"state\.|noraise|frame|call\.")],
+                        AC + "._update_state#state"],
             "level": "proof"},
     "C12": {"targets": C12_TARGETS + [CMD + "SetPropertiesCommand.__init__", CMD + "SetPropertiesCommand.tobytes",
                                        CMD + "GetPropertiesCommand.__init__", CMD + "GetPropertiesCommand.tobytes",
@@ -42,12 +42,12 @@ PROPS = {
     "C13": {"targets": ["msmart.frame.Frame.validate", "msmart.frame.Frame.checksum", "msmart.crc8.calculate", "crc8.table", "crc8.step_range",
                         CMD + "Response.validate", CMD + "Response.construct",
                         AC + "._send_command_get_responses", AC + ".refresh#no_valid_response",
-                        (AC + "._update_state", r"other\.|unknown_ignored|noraise|frame")],
+                        AC + "._update_state#other", AC + "._update_state#props"],
             "level": "proof"},
     "C14": {"targets": [CMD + "Response.construct", CMD + "StateResponse.__init__", CMD + "CapabilitiesResponse.__init__",
                         CMD + "CapabilitiesResponse._parse_capabilities", CMD + "PropertiesResponse.__init__",
                         CMD + "PropertiesResponse._parse", CMD + "PropertyId.decode",
-                        AC + "._update_state", AC + "._update_capabilities", AC + "._send_command_get_responses",
+                        AC + "._update_state#state", AC + "._update_state#props", AC + "._update_state#other", AC + "._update_capabilities", AC + "._send_command_get_responses",
                         AC + "._send_command_get_response_with_id", AC + ".refresh", AC + ".apply", AC + "._apply_properties",
                         AC + ".get_capabilities", AC + ".toggle_display", AC + ".start_self_clean"],
             "level": "proof"},
@@ -59,6 +59,6 @@ PROPS = {
                         AC + ".rate_select!setter", AC + ".horizontal_swing_angle!setter", AC + ".vertical_swing_angle!setter",
                         CMD + "SetPropertiesCommand.__init__", CMD + "SetPropertiesCommand.tobytes",
                         (AC + ".apply", r"c16\.|noraise|call\."), AC + "._apply_properties", AC + ".start_self_clean",
-                        (AC + "._update_capabilities", r"props\.|noraise")],
+                        (AC + "._update_capabilities", r"props\.|noraise"), AC + "._update_state#props"],
             "level": "proof"},
 }
